@@ -4,6 +4,7 @@
 package fstestdev
 
 import (
+	"bytes"
 	"errors"
 	"fmt"
 	"io"
@@ -46,6 +47,8 @@ type deviant struct {
 	fstat    func(f hackpadfs.File) (hackpadfs.FileInfo, error, bool)
 	readDir  func(f hackpadfs.File, n int) ([]hackpadfs.DirEntry, error, bool)
 	seek     func(f hackpadfs.File, off int64, wh int) (int64, error, bool)
+	writeAt  func(f hackpadfs.File, p []byte, off int64) (int, error, bool)
+	readAt   func(f hackpadfs.File, p []byte, off int64) (int, error, bool)
 }
 
 func (d *devFS) e(op string, err error) error {
@@ -146,6 +149,11 @@ func (f *devFile) Read(p []byte) (int, error) {
 	return f.File.Read(p)
 }
 func (f *devFile) ReadAt(p []byte, off int64) (int, error) {
+	if f.d.readAt != nil {
+		if n, err, ok := f.d.readAt(f.File, p, off); ok {
+			return n, err
+		}
+	}
 	return hackpadfs.ReadAtFile(f.File, p, off)
 }
 func (f *devFile) Write(p []byte) (int, error) {
@@ -162,6 +170,11 @@ func (f *devFile) Write(p []byte) (int, error) {
 	return hackpadfs.WriteFile(f.File, p)
 }
 func (f *devFile) WriteAt(p []byte, off int64) (int, error) {
+	if f.d.writeAt != nil {
+		if n, err, ok := f.d.writeAt(f.File, p, off); ok {
+			return n, err
+		}
+	}
 	return hackpadfs.WriteAtFile(f.File, p, off)
 }
 func (f *devFile) Seek(off int64, wh int) (int64, error) {
@@ -237,6 +250,40 @@ func catalogue() []*deviant {
 		return nil, true
 	}})
 	add(&deviant{name: "remove-always-nil", remove: func(fs *mem.FS, n string) (error, bool) { return nil, true }})
+	// positional calls: the gap a write beyond the end leaves, the bytes and counts of WriteAt / ReadAt
+	add(&deviant{name: "writeat-gap-not-zero", writeAt: func(f hackpadfs.File, p []byte, off int64) (int, error, bool) {
+		info, err := f.Stat()
+		if err != nil || off <= info.Size() || len(p) == 0 {
+			return 0, nil, false
+		}
+		gap := bytes.Repeat([]byte{0xff}, int(off-info.Size()))
+		if _, err := hackpadfs.WriteAtFile(f, gap, info.Size()); err != nil {
+			return 0, err, true
+		}
+		n, err := hackpadfs.WriteAtFile(f, p, off)
+		return n, err, true
+	}})
+	add(&deviant{name: "writeat-drops-last-byte", writeAt: func(f hackpadfs.File, p []byte, off int64) (int, error, bool) {
+		if len(p) < 2 {
+			return 0, nil, false
+		}
+		_, err := hackpadfs.WriteAtFile(f, p[:len(p)-1], off)
+		return len(p), err, true
+	}})
+	add(&deviant{name: "writeat-ignores-offset", writeAt: func(f hackpadfs.File, p []byte, off int64) (int, error, bool) {
+		if off == 0 {
+			return 0, nil, false
+		}
+		n, err := hackpadfs.WriteAtFile(f, p, off-1)
+		return n, err, true
+	}})
+	add(&deviant{name: "readat-off-by-one", readAt: func(f hackpadfs.File, p []byte, off int64) (int, error, bool) {
+		if off == 0 {
+			return 0, nil, false
+		}
+		n, err := hackpadfs.ReadAtFile(f, p, off-1)
+		return n, err, true
+	}})
 	add(&deviant{name: "rename-noop", rename: func(fs *mem.FS, o, n string) (error, bool) {
 		if _, err := fs.Stat(o); err != nil {
 			return nil, false
